@@ -95,8 +95,6 @@ fn dispatch_events_per_event_body(&mut self, sources_at_lookup: &SourceList<'l, 
                     ==> (!final(extra)@.contains(RegistrationToken::of(event.token.inner.forget())) || d.w_unregistered(RegistrationToken::of(event.token.inner.forget())) || d.w_deferred())
         }),
 //@ entry
-    // ghost state: has the loop-global deferred-action cell been reset for this event, and what was in it
-    let ghost mut reset_done = false;
     let ghost sources0 = *sources;
     let ghost extra0 = *extra;
     proof { broadcast use RegistrationToken::lemma_of, TokenInner::lemma_forget_idem, TokenInner::lemma_forget; }
@@ -105,13 +103,11 @@ fn dispatch_events_per_event_body(&mut self, sources_at_lookup: &SourceList<'l, 
 //@ before <<result?>>
             // C09 / C15 ("...including when event processing returns an error"): the cell is reset BEFORE a processing
             // error can be propagated out of this body (defect F3, fixed in 0605ec0)
-            assert(reset_done); /*@props C09,C15*/
-//@ after <<.pending_action .replace(PostAction::Continue)>>
-            proof { reset_done = true; }
+            assert(crate::ext::cell_was_set(&self.handle.inner.pending_action, PostAction::Continue)); /*@props C09,C15*/
 //@ before <<match ret {>>
             // C09: the deferred request is taken out of (and cleared from) the loop-global cell on EVERY path, so it
             // can never be carried over to a later event or to another source
-            assert(reset_done); /*@props C09*/
+            assert(crate::ext::cell_was_set(&self.handle.inner.pending_action, PostAction::Continue)); /*@props C09*/
             // C09: an explicit non-Continue return takes precedence over whatever was deferred
             assert(res0 matches Ok(a0) ==> (!(a0 is Continue) ==> ret == a0)); /*@props C09,C06*/
             // C01/C09/C14: every action below is applied to the source the event belongs to: the lookup key and the
